@@ -195,6 +195,17 @@ func apathD(v ssa.Value, d int) string {
 		return fmt.Sprintf("%s#%d", apathD(x.Tuple, d+1), x.Index)
 	case *ssa.Lookup:
 		return apathD(x.X, d+1) + "{" + idxPath(x.Index, d+1) + "}"
+	case *ssa.Slice:
+		return apathD(x.X, d+1) + "[:]"
+	case *ssa.Phi:
+		if x.Comment != "" {
+			return x.Comment
+		}
+		return "φ"
+	case *ssa.BinOp:
+		return "(" + apathD(x.X, d+1) + x.Op.String() + apathD(x.Y, d+1) + ")"
+	case *ssa.MakeInterface:
+		return apathD(x.X, d+1)
 	case *ssa.TypeAssert:
 		return apathD(x.X, d+1) + ".(" + types.TypeString(x.AssertedType, func(*types.Package) string { return "" }) + ")"
 	}
